@@ -196,3 +196,80 @@ func contract_MarshalOptions_marshalMap(o MarshalOptions, b []byte, fd protorefl
 	modifiesAll()
 	return
 }
+
+// ---------------------------------------------------------------- repeated scalar fields, reflection path (C04)
+//
+// protoreflect.List is observed through Len and Get (pure observers here).
+//
+// @ pure protoreflect.List.Len protoreflect.List.Get protoreflect.FieldDescriptor.IsPacked
+
+// specListSum: total payload size of the first i elements.
+//
+// @ opaque
+func specListSum(list protoreflect.List, kind protoreflect.Kind, i int) int {
+	if i <= 0 {
+		return 0
+	}
+	return specListSum(list, kind, i-1) + specSizeSingular(kind, list.Get(i-1))
+}
+
+// specListTags: i tags of sizeTag bytes each.
+//
+// @ opaque
+func specListTags(sizeTag, i int) int {
+	if i <= 0 {
+		return 0
+	}
+	return specListTags(sizeTag, i-1) + sizeTag
+}
+
+// sizeList, scalar kinds: a packed non-empty list is ONE length-delimited field holding the
+// concatenated payloads; otherwise every element is its own tagged field. (The encoding
+// document: "packed repeated fields" vs. ordinary repeated fields.)
+//
+// @ props C04 C08
+// @ mode int
+// @ loop 1 invariant 0 <= i && i <= llen && llen == list.Len() && content == specListSum(list, fd.Kind(), i) && 0 <= content && content <= 10*i
+// @ loop 2 invariant 0 <= i && i <= llen && llen == list.Len() && size == specListTags(sizeTag, i)+specListSum(list, fd.Kind(), i) && 0 <= size && size <= 20*i
+func contract_MarshalOptions_sizeList(o MarshalOptions, num protowire.Number, fd protoreflect.FieldDescriptor, list protoreflect.List) (size int) {
+	requires(specScalarKind(fd.Kind()))
+	requires(0 <= list.Len() && list.Len() <= 1<<40)
+	modifiesAll()
+	ensures(imp(fd.IsPacked() && list.Len() > 0,
+		size == protowire.SpecVlen(uint64(num)<<3)+protowire.SpecVlen(uint64(specListSum(list, fd.Kind(), list.Len())))+specListSum(list, fd.Kind(), list.Len())))
+	ensures(imp(!(fd.IsPacked() && list.Len() > 0),
+		size == specListTags(protowire.SpecVlen(uint64(num)<<3), list.Len())+specListSum(list, fd.Kind(), list.Len())))
+	return
+}
+
+// marshalList, scalar kinds: appends exactly as many bytes as sizeList reports (the same two
+// layouts), and never fails.
+//
+// @ props C04 C08
+// @ mode int
+// @ pure protoreflect.FieldDescriptor.Number
+// @ loop 1 invariant 0 <= i && i <= llen && llen == list.Len() && len(b) == pos+1+specListSum(list, fd.Kind(), i) && 0 <= pos && 0 <= specListSum(list, fd.Kind(), i)
+// @ loop 2 invariant 0 <= i && i <= llen && llen == list.Len() && len(b) == len(old(b))+specListTags(protowire.SpecVlen(uint64(fd.Number())<<3), i)+specListSum(list, fd.Kind(), i)
+func contract_MarshalOptions_marshalList(o MarshalOptions, b []byte, fd protoreflect.FieldDescriptor, list protoreflect.List) (r []byte, err error) {
+	requires(specScalarKind(fd.Kind()))
+	requires(0 <= list.Len() && list.Len() <= 1<<40)
+	requires(len(b) <= 1<<40)
+	modifiesAll()
+	ensures(err == nil)
+	ensures(imp(fd.IsPacked() && list.Len() > 0,
+		len(r) == len(b)+protowire.SpecVlen(uint64(fd.Number())<<3)+protowire.SpecVlen(uint64(specListSum(list, fd.Kind(), list.Len())))+specListSum(list, fd.Kind(), list.Len())))
+	ensures(imp(!(fd.IsPacked() && list.Len() > 0),
+		len(r) == len(b)+specListTags(protowire.SpecVlen(uint64(fd.Number())<<3), list.Len())+specListSum(list, fd.Kind(), list.Len())))
+	return
+}
+
+// Size of a repeated scalar field equals the number of bytes marshalList appends (reflection path).
+//
+// @ props C04 C08
+// @ mode int
+func lemma_sizeMarshalList(o MarshalOptions, b []byte, fd protoreflect.FieldDescriptor, list protoreflect.List) {
+	requires(specScalarKind(fd.Kind()))
+	requires(0 <= list.Len() && list.Len() <= 1<<40 && len(b) <= 1<<40)
+	r, err := o.marshalList(b, fd, list)
+	ensures(err == nil && len(r)-len(b) == o.sizeList(fd.Number(), fd, list))
+}
